@@ -169,8 +169,10 @@ func (s *stubWitness) Update(ctx context.Context, logID string, oldSize uint64, 
 }
 
 type c13Result struct {
-	txLeft         bool // a storage transaction was still open when the run ended
-	neverReturned  bool // FeedOnce had not returned 10 simulated minutes after its context ended
+	betweenAt      int    // run mode: number of calls made when the witness was moved between two cycles
+	betweenState   Stored // ... and what the witness held right after that
+	txLeft         bool   // a storage transaction was still open when the run ended
+	neverReturned  bool   // FeedOnce had not returned 10 simulated minutes after its context ended
 	runReturnDelay time.Duration
 	calls          []*feedCall
 	out            []byte
@@ -417,6 +419,22 @@ func c13Exec(t *testing.T, p *Plan) (r *c13Result) {
 				r.err = feeder.Run(ctx, interval, opts)
 			}()
 			cancelAfter := time.Duration(ex["cancel_after_ms"]) * time.Millisecond
+			if ex["between_cycles"] == 1 && fw.compete != nil {
+				// between two poll cycles somebody else (the bastion endpoint, another feeder) moves the witness on: the next
+				// cycle starts from what the witness reports THEN, whatever the feeder learnt in the cycle before
+				fw.mu.Lock()
+				comp := fw.compete
+				fw.competed = true // not inside an attempt
+				fw.mu.Unlock()
+				time.Sleep(interval / 2)
+				synctest.Wait()
+				comp()
+				fw.mu.Lock()
+				r.betweenAt = len(fw.calls)
+				fw.mu.Unlock()
+				r.betweenState = parseStored(fw.truth())
+				cancelAfter -= interval / 2
+			}
 			time.Sleep(cancelAfter)
 			synctest.Wait()
 			fw.mu.Lock()
@@ -536,6 +554,21 @@ func oracleC13(p *Plan, r *c13Result) []Violation {
 	w := r.W
 	ld := w.Logs[0]
 	if p.Cfg.Notes["mode"] == "run" {
+		if r.betweenAt > 0 && r.betweenState.Has {
+			for _, c := range r.calls[min(r.betweenAt, len(r.calls)):] {
+				if c.Kind != "U" {
+					continue
+				}
+				sub := parseStored(c.CP)
+				switch {
+				case !sub.Bad && r.betweenState.Size > sub.Size:
+					add("submitted_while_witness_ahead", "later_cycle", fmt.Sprintf("between two poll cycles the witness moved to size %d; in a later cycle the feeder still submitted the log's size %d (old size %d; calls: %s)", r.betweenState.Size, sub.Size, c.Old, callString(r.calls)))
+				case c.Old != r.betweenState.Size:
+					add("wrong_old_size", "later_cycle", fmt.Sprintf("between two poll cycles the witness moved to size %d; in a later cycle the feeder passed old size %d (calls: %s)", r.betweenState.Size, c.Old, callString(r.calls)))
+				}
+				break
+			}
+		}
 		if !r.returned || r.runReturnDelay > 3*time.Second {
 			add("ran_after_cancel", "run_did_not_return", fmt.Sprintf("feeder.Run was still running %v (simulated) after its context ended (returned=%v; calls: %s)", r.runReturnDelay, r.returned, callString(r.calls)))
 		}
@@ -904,10 +937,16 @@ func init() {
 				}
 			}
 			// the polling loop under cancellation: mid-cycle (witness failing) and between cycles
-			for _, rc := range [][3]int64{{60, 700, 1}, {60, 7000, 1}, {10, 25000, 1}, {60, 90000, 0}, {30, 31000, 0}} {
+			for _, rc := range [][3]int64{{60, 700, 1}, {60, 7000, 1}, {10, 25000, 1}, {60, 90000, 0}, {30, 31000, 0}, {30, 100000, 2}} {
 				q := p.Clone()
 				q.Cfg.Extra["enum"] = 0
 				q.Cfg.Notes["mode"] = "run"
+				if rc[2] == 2 {
+					if q.Cfg.Extra["compete"] != 1 || q.Cfg.Extra["real"] != 1 {
+						continue
+					}
+					q.Cfg.Extra["between_cycles"] = 1
+				}
 				q.Cfg.Extra["interval_s"], q.Cfg.Extra["cancel_after_ms"] = rc[0], rc[1]
 				q.Cfg.Notes["fail"] = ""
 				if rc[2] == 1 {
